@@ -443,8 +443,10 @@ impl GitignoreBuilder {
         if line.starts_with("#") {
             return Ok(self);
         }
+        // As in git, only trailing spaces are insignificant (a trailing tab,
+        // for example, is part of the pattern).
         if !line.ends_with("\\ ") {
-            line = line.trim_right();
+            line = line.trim_end_matches(' ');
         }
         if line.is_empty() {
             return Ok(self);
